@@ -49,7 +49,7 @@
 #define MAXFD 16
 #define VBASE_S 1000000L        /* virtual clock origin (seconds) */
 
-enum { OP_NONE, OP_START, OP_STEP, OP_LOCK, OP_CONDWAIT, OP_JOIN, OP_JOINALL, OP_EPOLL, OP_SELECT, OP_SLEEP };
+enum { OP_NONE, OP_START, OP_STEP, OP_LOCK, OP_CONDWAIT, OP_JOIN, OP_JOINALL, OP_EPOLL, OP_SELECT, OP_SLEEP, OP_PIPEWRITE, OP_PIPEREAD };
 
 typedef struct {
   int used, fin, joined;
@@ -65,6 +65,8 @@ typedef struct {
   int yields;
   unsigned pmask;               /* fairness: threads that must run (or block) before my timeout may fire */
   int jtarget;
+  int pipe_i, pipe_nonblock;
+  size_t pipe_n;
   int epfd;
   int sel_n;
   fd_set *sel_r, *sel_w, *sel_e;
@@ -77,6 +79,17 @@ static sthread T[MAXT];
 static struct { const void *m; int owner; } M[MAXM];
 static int nM;
 static int tracked[MAXFD], ntracked;
+/* pipes created inside a session get a LOGICAL capacity (cfg.pipe_capacity bytes, 0 = the kernel's): the
+ * kernel object stays real, the scheduler only counts the bytes in flight.  A write that does not fit
+ * blocks the thread if the descriptor is blocking and fails with EAGAIN if it is O_NONBLOCK -- the flag is
+ * read from the kernel (F_GETFL) at the time of the call, i.e. exactly as the code under test set it with
+ * pipe2()/fcntl().  A read from an empty pipe likewise blocks or returns EAGAIN. */
+static struct { int r, w; long pending; } PIPES[8];
+static int npipes;
+static int pipe_of (int fd, int want_w) {
+  for (int i = 0; i < npipes; i++) if ((want_w ? PIPES[i].w : PIPES[i].r) == fd) return i;
+  return -1;
+}
 static volatile int g_active;
 static int g_cur;
 static long g_steps;
@@ -129,6 +142,8 @@ static int op_ready (sthread *t) {
   case OP_EPOLL: { struct epoll_event ev; return REAL (epoll_wait) (t->epfd, &ev, 1, 0) > 0; }
   case OP_SELECT: return sel_probe (t);
   case OP_SLEEP: return 0;
+  case OP_PIPEWRITE: return t->pipe_nonblock || PIPES[t->pipe_i].pending + (long) t->pipe_n <= g_cfg.pipe_capacity;
+  case OP_PIPEREAD: return t->pipe_nonblock || PIPES[t->pipe_i].pending > 0;
   }
   return 0;
 }
@@ -140,7 +155,7 @@ static int op_can_timeout (sthread *t) {
 }
 
 static const char *opname (int op) {
-  static const char *n[] = { "-", "start", "step", "lock", "cond-wait", "join", "join-all", "epoll_wait", "select", "sleep" };
+  static const char *n[] = { "-", "start", "step", "lock", "cond-wait", "join", "join-all", "epoll_wait", "select", "sleep", "pipe-write(full)", "pipe-read(empty)" };
   return n[op];
 }
 
@@ -231,7 +246,7 @@ void sched_point (const char *label) { if (MANAGED ()) step (label); }
 
 /* ------------------------------------------------------------------ session */
 void sched_begin (const sched_cfg *cfg) {
-  memset (T, 0, sizeof T); nM = 0; ntracked = 0; g_steps = 0; vnow = 0;
+  memset (T, 0, sizeof T); nM = 0; ntracked = 0; npipes = 0; g_steps = 0; vnow = 0;
   memset (&g_cfg, 0, sizeof g_cfg);
   if (cfg) g_cfg = *cfg;
   T[0].used = 1; T[0].pth = pthread_self (); T[0].label = "main"; T[0].op = OP_STEP;
@@ -455,21 +470,53 @@ int eventfd (unsigned int init, int flags) {
   if (MANAGED () && fd >= 0) sched_track_fd (fd);
   return fd;
 }
+static void pipe_created (int fds[2]) {
+  sched_track_fd (fds[0]); sched_track_fd (fds[1]);
+  if (g_cfg.pipe_capacity > 0 && npipes < 8) { PIPES[npipes].r = fds[0]; PIPES[npipes].w = fds[1]; PIPES[npipes].pending = 0; npipes++; }
+}
 int pipe2 (int fds[2], int flags) {
   int r = REAL (pipe2) (fds, flags);
-  if (MANAGED () && r == 0) { sched_track_fd (fds[0]); sched_track_fd (fds[1]); }
+  if (MANAGED () && r == 0) pipe_created (fds);
   return r;
 }
 int pipe (int fds[2]) {
   int r = REAL (pipe) (fds);
-  if (MANAGED () && r == 0) { sched_track_fd (fds[0]); sched_track_fd (fds[1]); }
+  if (MANAGED () && r == 0) pipe_created (fds);
   return r;
 }
 ssize_t read (int fd, void *buf, size_t n) {
-  if (MANAGED () && is_tracked (fd)) step ("read");
+  if (MANAGED () && is_tracked (fd)) {
+    int pi = pipe_of (fd, 0);
+    if (pi < 0) step ("read");
+    else {
+      sthread *t = &T[my_tid];
+      t->op = OP_PIPEREAD; t->pipe_i = pi; t->pipe_n = n; t->label = "read"; t->timed = 0;
+      t->pipe_nonblock = (fcntl (fd, F_GETFL) & O_NONBLOCK) != 0;
+      run_sched (my_tid);
+      t->op = OP_NONE;
+      if (PIPES[pi].pending <= 0) { errno = EAGAIN; return -1; }        /* only reached on a non-blocking descriptor */
+      ssize_t r = REAL (read) (fd, buf, n);
+      if (r > 0) PIPES[pi].pending -= r;
+      return r;
+    }
+  }
   return REAL (read) (fd, buf, n);
 }
 ssize_t write (int fd, const void *buf, size_t n) {
-  if (MANAGED () && is_tracked (fd)) step ("write");
+  if (MANAGED () && is_tracked (fd)) {
+    int pi = pipe_of (fd, 1);
+    if (pi < 0) step ("write");
+    else {
+      sthread *t = &T[my_tid];
+      t->op = OP_PIPEWRITE; t->pipe_i = pi; t->pipe_n = n; t->label = "write"; t->timed = 0;
+      t->pipe_nonblock = (fcntl (fd, F_GETFL) & O_NONBLOCK) != 0;
+      run_sched (my_tid);
+      t->op = OP_NONE;
+      if (PIPES[pi].pending + (long) n > g_cfg.pipe_capacity) { errno = EAGAIN; return -1; }   /* full, non-blocking descriptor */
+      ssize_t r = REAL (write) (fd, buf, n);
+      if (r > 0) PIPES[pi].pending += r;
+      return r;
+    }
+  }
   return REAL (write) (fd, buf, n);
 }
